@@ -288,6 +288,54 @@ pub fn c08_other_fields(acc: &mut Acc) -> u64 {
     n
 }
 
+/// "A well-formed type other than the seven known ones is refused by the typed PURL whenever the
+/// type-agnostic PURL accepts the string": the neighbours of the known names (every proper prefix and
+/// suffix, one letter more, doubled, joined with another name), in lower and upper case.
+#[cfg(feature = "typed")]
+pub fn c08_unknown_types(acc: &mut Acc) -> u64 {
+    let mut cands: Vec<String> = Vec::new();
+    for name in R::KNOWN_TYPES {
+        for i in 1..name.len() {
+            cands.push(name[..i].to_owned());
+            cands.push(name[i..].to_owned());
+        }
+        for extra in ["x", "2", "s", "-", ".", "+"] {
+            cands.push(format!("{name}{extra}"));
+            cands.push(format!("{extra}{name}"));
+        }
+        cands.push(format!("{name}{name}"));
+        cands.push(format!("{name}-{}", R::KNOWN_TYPES[0]));
+    }
+    let mut n = 0u64;
+    for c in cands {
+        for ty in [c.clone(), c.to_ascii_uppercase()] {
+            if R::KNOWN_TYPES.contains(&ty.to_ascii_lowercase().as_str()) {
+                continue;
+            }
+            for rest in ["g/n", "g/N_a.b@1?k=v#s"] {
+                n += 1;
+                acc.evals += 1;
+                acc.calls += 2;
+                let input = format!("pkg:{ty}/{rest}");
+                let case = json!({"engine": "c08-unknown-type", "input": input});
+                let r = guarded(|| {
+                    if <String as PFlavor>::parse(&input).is_ok() {
+                        if let Ok(p) = <purl::PackageType as PFlavor>::parse(&input) {
+                            acc.violate(Violation { prop: "C08", kind: "unknown-type-accepted".into(), case: case.clone(), detail: format!("{:?} has the unknown type {:?} but the typed PURL accepts it as {:?}", input, ty, observe(&p)) });
+                        }
+                        acc.nontrivial += 1;
+                    }
+                    acc.sig(&("unknown-type", ty.len().min(8)));
+                });
+                if let Err(m) = r {
+                    acc.violate(Violation { prop: "C06", kind: "panic".into(), case, detail: m });
+                }
+            }
+        }
+    }
+    n
+}
+
 /// maven without a namespace is refused whatever the name looks like (builder, and parser with the
 /// name fully percent-encoded and — where that is the same PURL — written raw).
 #[cfg(feature = "typed")]
@@ -387,7 +435,7 @@ pub fn c08_sweep(tier: Tier) -> (Acc, Value) {
     let maven_cases = maven.evals;
     total.merge(maven);
     let mut of = Acc::new();
-    let other_field_cases = c08_other_fields(&mut of);
+    let other_field_cases = c08_other_fields(&mut of) + c08_unknown_types(&mut of);
     total.merge(of);
     (total, json!({"engine": "E-sweep", "scalar_values": N_SCALARS, "scalar_name_cases": scalar_cases, "short_name_alphabet": alphabet, "short_name_max_len": n, "short_name_cases": short_cases, "long_name_max_tail": long_n, "long_name_cases": long_cases, "maven_namespace_cases": maven_cases, "other_field_cases": other_field_cases}))
 }
@@ -464,6 +512,19 @@ pub fn c15_sweep(tier: Tier) -> (Acc, Value) {
             forms.push(("type segment of to_string()", seg));
         } else {
             total.violate(Violation { prop: "C15", kind: "cannot-build".into(), case: case.clone(), detail: format!("cannot build a PURL of type {name}") });
+        }
+        // Display under formatter flags: wherever the output still shows `pkg:<type>/`, the type segment is the name
+        if let Built::Ok(p) = build_with(*t, &spec, &mut total) {
+            for (what, text) in [("{:<14}", format!("{:<14}", p)), ("{:>30}", format!("{:>30}", p)), ("{:.7}", format!("{:.7}", p)), ("{:.0}", format!("{:.0}", p)), ("{:*^40.12}", format!("{:*^40.12}", p)), ("{:#?}-free {:+}", format!("{:+}", p))] {
+                if let Some(i) = text.find("pkg:") {
+                    if let Some(j) = text[i + 4..].find('/') {
+                        let seg = &text[i + 4..i + 4 + j];
+                        if seg != name {
+                            total.violate(Violation { prop: "C15", kind: "names-disagree".into(), case: case.clone(), detail: format!("formatted with {what}: {:?} shows the type segment {:?}, name() gives {:?}", text, seg, name) });
+                        }
+                    }
+                }
+            }
         }
         #[cfg(feature = "serde")]
         {
@@ -868,6 +929,8 @@ pub fn c13_sweep(tier: Tier, rebuild: u32) -> (Acc, Value) {
     let alphabet = ["a", "z", "A", "Z", "m", "M", "9", ".", "+", "-", "!", "É"];
     let short = for_all_short(&alphabet, n, |s, acc| {
         c13_flavor_case(&rich(s), rebuild, acc);
+        // the same type with an EMPTY name: two defects at once, every type parameter must still report the same one
+        c13_flavor_case(&spec_with(s, 1, ""), rebuild, acc);
         if s == "Zip" {
             acc.sample(|| json!({"type": s}));
         }
@@ -880,7 +943,13 @@ pub fn c13_sweep(tier: Tier, rebuild: u32) -> (Acc, Value) {
         for b in 0..u.len() {
             for (fi, fj) in [(0usize, 1usize), (0, 2), (0, 3), (1, 2), (1, 3), (2, 3)] {
                 for ty in ["t", "T.1+x-Z", "", "é"] {
-                    for q in [vec![], vec![("K".to_owned(), u[b].to_owned())], vec![("checksum".to_owned(), "B:FF,a:0A".to_owned())], vec![("!".to_owned(), "v".to_owned())]] {
+                    for q in [
+                        vec![],
+                        vec![("K".to_owned(), u[b].to_owned())],
+                        vec![("checksum".to_owned(), "B:FF,a:0A".to_owned())],
+                        vec![("!".to_owned(), "v".to_owned())],
+                        vec![("a".to_owned(), String::new()), ("checksum".to_owned(), "B:FF,a:0A".to_owned()), ("z".to_owned(), u[b].to_owned())],
+                    ] {
                         let mut f = ["", "a", "", ""];
                         f[fi] = u[a];
                         f[fj] = u[b];
@@ -910,6 +979,7 @@ pub fn c13_sweep(tier: Tier, rebuild: u32) -> (Acc, Value) {
     let named_acc = par_items(named.len(), threads(), |i, acc| {
         c13_flavor_case(&rich(&named[i]), rebuild, acc);
         c13_flavor_case(&spec_with(&named[i], 1, "A_b.C"), rebuild, acc);
+        c13_flavor_case(&spec_with(&named[i], 1, ""), rebuild, acc);
     });
     let nnamed = named_acc.evals;
     total.merge(named_acc);
